@@ -322,4 +322,28 @@ theorem stat_abs_le_one (a b : List Int) (hl : a.length = b.length) (s : Stat) (
     rw [ht2]
     exact_mod_cast hsq
 
+/-- what `ComputeLD` (Pearson) may report as a number is a fraction in `[0, 1]` with a positive denominator -/
+theorem clumpLd_r2_bounds (cand index : List (Nat × Nat)) (n d : Int) (h : clumpLd cand index = .r2 n d) :
+    0 < d ∧ 0 ≤ n ∧ n ≤ d := by
+  unfold clumpLd at h
+  simp only at h
+  split at h
+  · cases h
+  · split at h
+    · cases h
+    · rename_i s hs
+      injection h with h1 h2
+      subst h1; subst h2
+      have hl : ((validDosages cand index).map (·.1)).length = ((validDosages cand index).map (·.2)).length := by simp
+      have hD := stat_den_pos _ _ s hs
+      have hsq := num_sq_le _ _ hl
+      unfold stat at hs
+      split at hs
+      · cases hs
+      · injection hs with hs
+        subst hs
+        refine ⟨hD, ?_, ?_⟩
+        · exact mul_self_nonneg _
+        · simpa [sq] using hsq
+
 end LdStat
